@@ -236,6 +236,17 @@ func (g c07Gen) urlData() []byte {
 			}
 		}
 	}
+	if r.Intn(8) == 0 {
+		// a long request string: BEP 41 chains it over any number of URLData options
+		total := []int{254, 255, 256, 509, 510, 511, 512, 700, 765, 766, 1020, 1021, 1500, 1850}[r.Intn(14)]
+		if sb.Len() == 0 {
+			sb.WriteString("/?")
+		}
+		sb.WriteString("&pad=")
+		for sb.Len() < total {
+			sb.WriteByte("xyz+"[r.Intn(4)])
+		}
+	}
 	return []byte(sb.String())
 }
 
@@ -249,7 +260,7 @@ func (g c07Gen) options(data []byte, end bool) []byte {
 			continue
 		}
 		n := r.Intn(40)
-		if r.Intn(10) == 0 {
+		if r.Intn(10) == 0 || (len(data) > 300 && r.Intn(4) > 0) {
 			n = 255
 		}
 		if n > len(data) {
